@@ -40,12 +40,30 @@ SPECIAL = {'nan': float('nan'), 'str': 'x', 'none': None, 'half': 1.5, 'ninf': f
 DIST_HOOK = [None]    # optional replacement of the scripted distributions by library ones (C15): f(vals, kind, node, cls, integer)
 
 
+COMBINE = [False]     # cfg['combine']: times are given to the engine through ciw's arithmetic on distributions (a - b)
+
+
+class ScriptedShift(Scripted):
+    """the left operand of a combined distribution `ScriptedShift(...) - Deterministic(shift)`: logs the value the COMBINATION
+    hands to the engine (v), returns v + shift (always a valid sample by itself when v >= -shift)"""
+
+    def __init__(self, vals, kind, node, cls, shift):
+        super().__init__(vals, kind, node, cls)
+        self.shift = shift
+
+    def sample(self, t=None, ind=None):
+        return super().sample(t, ind) + self.shift
+
+
 def _dist(vals, kind, node, cls, integer=False):
     """value lists may contain special tokens (malformed-sample stream of C10/C14): see SPECIAL"""
     if vals is None:
         return None
     if DIST_HOOK[0] is not None:
         return DIST_HOOK[0](vals, kind, node, cls, integer)
+    if COMBINE[0] and not integer and kind in ('arr', 'svc') and all(not isinstance(v, str) and v >= -8 for v in vals):
+        sh = fl(8)
+        return ScriptedShift([fl(v) for v in vals], kind, node, cls, sh) - ciw.dists.Deterministic(sh)
     if integer:
         return Scripted([(SPECIAL[v] if isinstance(v, str) else int(v)) for v in vals], kind, node, cls)
     return Scripted([(SPECIAL[v] if isinstance(v, str) else fl(v)) for v in vals], kind, node, cls)
@@ -155,6 +173,7 @@ def make_network(cfg):
     n, k = cfg['n'], cfg['k']
     names = [cname(i) for i in range(k)]
     kw = {}
+    COMBINE[0] = bool(cfg.get('combine'))
     kw['arrival_distributions'] = {names[c]: [_dist(cfg['arr'][c][j], 'arr', j + 1, c) for j in range(n)] for c in range(k)}
     kw['service_distributions'] = {names[c]: [_dist(cfg['svc'][c][j], 'svc', j + 1, c) for j in range(n)] for c in range(k)}
     kw['number_of_servers'] = [_servers(s) for s in cfg['servers']]
